@@ -68,7 +68,7 @@ ASSUMPTIONS = ['operator new does not fail', 'thread-safety of JsonParser::Parse
                'patch operations carry a value (the NULL-value constructors of add/replace/test are not driven)']
 TRUSTED = ['modelled rather than verified: JsonPointer.cpp (all), JsonLexer.cpp (all), JsonParser.cpp (for texts: handler '
            'stacks folded into direct tree construction; the handler stack machine itself is modelled separately as h_step and '
-           'compared on arbitrary event sequences, its agreement with the direct construction is proved for values with strictly increasing member names (c19_handler_agrees), not for documents with unsorted/duplicate names), JsonWriter.cpp + StringUtils Escape/EncodeString, '
+           'compared on arbitrary event sequences, its agreement with the direct construction is proved for values with strictly increasing member names (c19_handler_agrees), the event sequence being the one an event-emitting copy of the lexer model produces (c19_lexer_events); not proved for documents with unsorted/duplicate names), JsonWriter.cpp + StringUtils Escape/EncodeString, '
            'JsonDouble::AsString, Json.cpp LookupElement*/InsertElementAt/RemoveElementAt/ReplaceElementAt/'
            'operator== for non-double values, JsonPatch.cpp (all ops), JsonData::Apply; '
            'JsonPatchParser.cpp (handler as a function of the parsed document with document-order members); NOT modelled: JsonDouble::AsDouble (floating point/pow; its termination in time independent of the exponent value '
